@@ -13,7 +13,7 @@ VARIABLES l, bad
 vars == <<l, bad>>
 
 Crashed(e) == e.out.kind \in {"fatal", "timeout", "oom"}
-McCfg(e) == [protoTime |-> e.cfg.protoTime, protoArrays |-> e.cfg.protoArrays, nullProto |-> FALSE, flatUnsigned |-> FALSE, timeAsZigZag |-> FALSE]
+McCfg(e) == [protoTime |-> e.cfg.protoTime, protoArrays |-> e.cfg.protoArrays, nullProto |-> FALSE, flatUnsigned |-> FALSE, timeAsZigZag |-> FALSE, marker |-> "none"]
 
 \* whether a re-used slice that ends up empty is nil or not is left open: compare after normalising empties
 Same(cfg, T, a, b) == Eq(T, Norm(cfg, T, a, FALSE), Norm(cfg, T, b, FALSE))
